@@ -1126,3 +1126,11 @@ impl<'de> DeserializeSeed<'de> for DeserializeTextResource {
             .map_err(|e| -> D::Error { serde::de::Error::custom(e) })
     }
 }
+
+#[cfg(stam_verif)]
+impl TextResource {
+    /// Verification hook: the byte -> codepoint map in key order
+    pub fn verif_byte2charmap(&self) -> Vec<(usize, usize)> {
+        self.byte2charmap.iter().map(|(b, c)| (*b, *c)).collect()
+    }
+}
